@@ -125,7 +125,7 @@ Lemma sim_row seq : forall ov b tic j p,
 Proof.
   induction seq as [|i t IH]; intros ov b tic j p H; simpl in *; [discriminate|].
   destruct i as [n x d|n q d]; simpl.
-  - rewrite brun_cons. now apply IH.
+  - exact (IH ov (bapply (den x) b) (tic + d)%Qc j p H).
   - destruct j as [|j'].
     + inversion H; subst. reflexivity.
     + now apply IH.
